@@ -25,11 +25,12 @@ func VerifC10Servers(r *Resolver, q dns.Question) *authority.Servers {
 }
 
 // VerifC10GroupLookup calls the REAL Resolver.groupLookup for req against
-// servers with a shared (not lookup-owned) request, on a context prepared the
-// way Resolver.Resolve prepares it.
-func VerifC10GroupLookup(ctx context.Context, r *Resolver, req *dns.Msg, servers *authority.Servers) (*dns.Msg, error) {
+// servers, on a context prepared the way Resolver.Resolve prepares it. owned
+// is groupLookup's own parameter: true = the request is lookup-owned (what
+// resolve passes for a QNAME-minimised copy), false = shared with the caller.
+func VerifC10GroupLookup(ctx context.Context, r *Resolver, req *dns.Msg, servers *authority.Servers, owned bool) (*dns.Msg, error) {
 	ctx = dnssec.EnsureNSEC3HashMemo(ctx)
 	ctx, _ = middleware.EnsureResolutionAttemptGuard(ctx)
 	rs := &resolveState{req: req, servers: servers, requestID: req.Id}
-	return r.groupLookup(ctx, rs, req, servers, false)
+	return r.groupLookup(ctx, rs, req, servers, owned)
 }
